@@ -978,11 +978,15 @@ func (s *Session) input(seg *segment) error {
 	}
 	if s.isClient {
 		if protocol != openSessionResponse && protocol != dataServerToClient && protocol != dataServerToClientLowEntropy && protocol != ackServerToClient && protocol != closeSessionRequest && protocol != closeSessionResponse {
-			return stderror.ErrInvalidArgument
+			// The segment travels in the wrong direction, e.g. our own packet
+			// reflected by the network. Drop it, don't fail the session.
+			log.Debugf("%v dropped %v because it is not a server to client segment", s, seg)
+			return nil
 		}
 	} else {
 		if protocol != openSessionRequest && protocol != dataClientToServer && protocol != dataClientToServerLowEntropy && protocol != ackClientToServer && protocol != closeSessionRequest && protocol != closeSessionResponse {
-			return stderror.ErrInvalidArgument
+			log.Debugf("%v dropped %v because it is not a client to server segment", s, seg)
+			return nil
 		}
 	}
 
